@@ -5,8 +5,10 @@
    State.state_fluents    : dict[text -> PDDLFunction]                                -> pydict pfun
    A Python set is a list in its actual iteration order (the harness dumps it in that order).
    A PDDLType is represented by its name (str(type)); nothing here walks the type tree.
-   Fluent values are binary64 floats (every route through the library stores float(...) results);
-   str(float) = repr(float) is NOT modelled: it is the parameter [num_text] (see Proofs/C14_*: hypotheses).
+   Fluent values are binary64 floats on every route through the parsers and the effects (they store float(...)
+   results); str(float) = repr(float) is NOT modelled: it is the parameter [num_text] (see Proofs/C14_*: hypotheses).
+   PDDLFunction stores whatever object it is given: a value that is a Python int ([pf_int]: the never-set default 0,
+   or an int handed to set_value) is printed by str(int) -- "3", not "3.0" -- which is modelled ([int_text]).
 
    What the code computes, and the model reproduces:
      __eq__      compares two SETS OF STRINGS: the untyped texts of all facts, then the "(= (f args) value)"
@@ -36,7 +38,10 @@ Record pfun := {
   pf_name : string;
   pf_sig : pydict string;          (* (grounded: object | lifted: parameter) name -> type name *)
   pf_val : float;
-  pf_rep : pydict nat              (* repeating_variables: name -> multiplicity (only the problem parser fills it) *)
+  pf_rep : pydict nat;             (* repeating_variables: name -> multiplicity (only the problem parser fills it) *)
+  pf_int : bool                    (* the stored value is a Python int, not a float: the never-set default
+                                      (__init__: stored_value = 0) or an int handed to set_value; [pf_val] is its
+                                      number, str() prints it without ".0" *)
 }.
 
 Record mstate := {
@@ -110,15 +115,23 @@ Definition pf_untyped (f : pfun) : string :=
   "(" +++ pf_name f +++ " " +++ join " " (dkeys (pf_sig f)) +++ ")".
 
 Definition pf_copy (f : pfun) : pfun :=
-  {| pf_name := pf_name f; pf_sig := pf_sig f; pf_val := pf_val f; pf_rep := pf_rep f |}.
+  {| pf_name := pf_name f; pf_sig := pf_sig f; pf_val := pf_val f; pf_rep := pf_rep f; pf_int := pf_int f |}.
+
+(* str(int): the decimal digits of an integral number *)
+Definition int_text (x : float) : string :=
+  match f_trunc x with Some z => py_int_text z | None => "<not-an-int>" end.
 
 Section Texts.
   (* str(value) inside the f-string: repr(float) *)
   Variable num_text : float -> string.
 
+  (* str(value): repr for a float, the digits for an int *)
+  Definition pf_value_text (f : pfun) : string :=
+    if pf_int f then int_text (pf_val f) else num_text (pf_val f).
+
   (* state_representation: f"(= ({name} {' '.join(vars)}) {value})" *)
   Definition pf_state_text (f : pfun) : string :=
-    "(= (" +++ pf_name f +++ " " +++ join " " (pf_vars f) +++ ") " +++ num_text (pf_val f) +++ ")".
+    "(= (" +++ pf_name f +++ " " +++ join " " (pf_vars f) +++ ") " +++ pf_value_text f +++ ")".
 
   (* ---------- State ---------- *)
   Definition all_preds (s : mstate) : list gpred := flat_map snd (st_preds s).
